@@ -122,6 +122,7 @@ def run(ctx):
     for h in FIXTURES:
         cases.append(("fixture", None, bytes.fromhex(h)))
     lines, meta = [], []
+    wb_lines, wb_meta = [], []
     evals = 0
     nontrivial = set()
     for label, w, data in cases:
@@ -147,6 +148,10 @@ def run(ctx):
             import io
             rb = read_batch(io.BytesIO(data))
             back = recgen.write_real(rb)
+            # whatever was read (exactly, or with floored timestamps — known finding I), writing it back
+            # must give the layout of *that* batch: compared with the model's prepared-batch writer below,
+            # so that the known finding cannot hide another difference
+            wb_lines.append("wbatch " + py.split(" ", 2)[2]); wb_meta.append((data, back))
             if back != f"ok {data.hex()}":
                 # explained by the known finding iff the read timestamps were floored
                 if w is not None and py == f"ok {len(data)} {values.render(expected_read(w, data, True))}" and py != f"ok {len(data)} {values.render(expected_read(w, data, False))}":
@@ -202,6 +207,10 @@ def run(ctx):
         if trunc.startswith("ok"):
             fails.append({"what": "CRC-colliding truncated batch accepted (returns a shortened header value)",
                           "bytes": bytes(raw[:-4]).hex(), "full": bytes(raw).hex(), "python": trunc[:600]})
+    for (data, back), lr in zip(wb_meta, driver.run_parallel(wb_lines)):
+        if lr.split()[0] in ("ok", "err") and not pyside.same_enc_outcome(back, lr):
+            fails.append({"what": "write_batch of the batch read_batch returned differs from the v2 layout of that batch",
+                          "bytes": data.hex(), "python": back[:800], "expected": lr[:800]})
     replies = driver.run_parallel(lines, jobs=12)
     for (kind, data, py), lr in zip(meta, replies):
         if not pyside.same_outcome(py, lr):
